@@ -219,8 +219,9 @@ PROPS = {
         "assumptions": COMMON_ASSUME,
     },
     "C05": {
+        "lean_modules": ["InTotoModel.Props.C05", "InTotoModel.Props.C05Keys"],
         "claim": 'Lean theorems for all values: canon and the signed text are injective (distinct JSON values => distinct signed bytes); composed with the document codec model (Model/Codec.lean, tied to the serde derives by the C16 doc_dec differential): two different links, two different layouts, two different steps or inspections are never signed over the same bytes - every field is observable in the signed bytes: names, materials/products with every digest, environment, byproducts, commands, thresholds, rules, authorized key ids, readme, key table, expiry (to the second). Single-leaf edits of generated layouts/links (incl. control-character neighbours, LF vs backslash-n, expiry +-1s) are checked on the real code: the old signatures must be rejected and the ed25519 signature must change.',
-        "level_note": 'Trusted: Lean kernel; unforgeability of the signature schemes (ring) for the "never verifies" reading; for layouts one outside fact enters as a hypothesis: different keys have different JSON descriptions (C12); that the expiry writer gives different texts for different whole-second instants is proved about the model of the chrono writer (c05_distinct_layouts_distinct_signed_bytes_std).',
+        "level_note": 'Trusted: Lean kernel; unforgeability of the signature schemes (ring) for the "never verifies" reading; for layouts nothing is assumed any more (c05_distinct_layouts_distinct_signed_bytes_full): the expiry writer (model of chrono) and the key writer (Model/KeyJson.lean: hex, PEM, DER) are proved injective on what a layout can hold.',
         "technique": 'Lean 4 theorems about an executable model + model/implementation correspondence check (differential run with property oracle)',
         "rule": "cases = generated layouts/links; every single-leaf edit of their JSON (strings, numbers, arrays, object keys, "
                 "expiry +-1s, LF vs backslash-n, quotes) that the parser accepts as a different value: the old signatures must "
@@ -228,16 +229,17 @@ PROPS = {
                 "reaches the signature primitive",
         "trusted_base": JSON_TB + ["'a signature made over one never verifies over the other' additionally rests on the "
                                    "unforgeability of the schemes (ring); the theorem covers the byte strings"],
-        "partial": ["layout level: injectivity of the public-key JSON description is a hypothesis of c05_distinct_layouts_distinct_signed_bytes_std; the RFC 3339 writer is modelled (Model/Time.lean), chrono itself is not verified"],
+        "partial": ["chrono, the pem crate and serde's derives are modelled and compared, not verified"],
         "assumptions": COMMON_ASSUME + ["values are canonical: maps are taken in key order, one entry per key (what BTreeMap/HashMap denote)"],
     },
     "C16": {
+        "lean_modules": ["InTotoModel.Props.C16", "InTotoModel.Props.C16Keys"],
         "claim": "Lean theorems for all values: decode(encode x) = x for links, steps, inspections, layouts, signatures and signed blocks (Model/Codec.lean: the serde derives of Link/Step/Inspection/Layout with Layout::try_into/Signature/Metablock with the untagged MetadataWrapper, field types VirtualTargetPath, TargetDescription, KeyId, u32) and for the hand-written codecs (artifact rules in every form, commands, byproducts with the flattened extra map); the readers are faithful: the members a reader consumed are verbatim the encoding of the fields it returns (rule keyword and prefixes, threshold, digests in lower-case hex, key ids, command arguments, environment entries, type tags of steps/inspections), a written link is never read as a layout, a parsed key table only holds entries filed under the key's own id. Correspondence: the model's decode+encode is compared with serde_json::from_value + to_value on valid and mutated documents of all seven kinds (doc_dec), rule and byproducts readers on arbitrary token arrays/objects; every metadata type obtainable from the builders (including their defaults) is serialised in four ways (to_string, pretty, canonical, JsonPretty), parsed and compared (value and byte-identical re-serialisation); an accepted document must survive its own wire form.",
-        "level_note": "Trusted: Lean kernel; serde-derive semantics as encoded in Model/Wire.lean and Model/Codec.lean (validated by the doc_dec differential incl. mutations); parameter of the model: the public-key (de)serialiser with the key's intrinsic id (C12), observed per document and handed to the model as a table; chrono's RFC 3339 reader/writer is modelled (Model/Time.lean) and compared with chrono and with the layout (de)serialiser text by text. Two builder-obtainable boundary classes fail the full statement and are listed in known_findings.json.",
+        "level_note": "Trusted: Lean kernel; serde-derive semantics as encoded in Model/Wire.lean and Model/Codec.lean (validated by the doc_dec differential incl. mutations); no parameter is left: the public-key (de)serialiser is modelled (Model/KeyJson.lean: hex / PEM + DER material, scheme compatibility, ids recomputed with the model's SHA-256) like chrono's RFC 3339 reader/writer (Model/Time.lean); both are compared with the library on their own (key_dec, rfc3339 / fmttime) and inside whole documents (doc_dec receives nothing but the document). Two builder-obtainable boundary classes fail the full statement and are listed in known_findings.json.",
         "technique": 'Lean 4 theorems about an executable model + model/implementation correspondence check (differential run with property oracle)',
         "rule": "cases = generated values of every metadata type (all rule forms, optional prefixes, empty vs absent environment, extra byproducts, non-ASCII paths, 0-3 keys of all types, thresholds across u32, builder defaults) x four serialisations; ops = doc_dec (link/step/insp/sig/layout/meta/block) on valid documents and on 1-2 random mutations (member deleted/renamed/added, value of another shape, damaged hex / key id / algorithm name, other expiry spellings incl. offsets and fractions, key-table entries refiled), rule_dec / bp_dec on valid, mutated and random inputs; distinct = distinct op; non-trivial = objects / arrays with at least two tokens",
-        "trusted_base": ["serde-derive: missing/null Option = None, unknown members ignored, flatten collects the rest, a collection fails as a whole (Model/Wire.lean, Model/Codec.lean; differential incl. mutations)", "PublicKey (de)serialisation is a parameter of the model (DocEnv), observed from the library per document", "chrono 0.4.45 parse_from_rfc3339 / to_rfc3339_opts(Secs, true): specification-level model in Model/Time.lean (rfc3339 / fmttime differential ops)"],
-        "partial": ["PublicKey JSON is a parameter of the codec model (its own round trip is a hypothesis of c16_layout_round_trip_std, sampled by the oracle); the expiry hypotheses are proved for whole-second instants of the years 0000-9999", "known findings: reserved byproduct keys; expiry after year 9999"],
+        "trusted_base": ["serde-derive: missing/null Option = None, unknown members ignored, flatten collects the rest, a collection fails as a whole (Model/Wire.lean, Model/Codec.lean; differential incl. mutations)", "impl Serialize / Deserialize for PublicKey as modelled in Model/KeyJson.lean (key_dec differential incl. mutations); the {\"Unknown\": s} form of SignatureScheme is outside the model", "chrono 0.4.45 parse_from_rfc3339 / to_rfc3339_opts(Secs, true): specification-level model in Model/Time.lean (rfc3339 / fmttime differential ops)"],
+        "partial": ["ring's validation of key material and the {Unknown: s} scheme form are not modelled; the round trip is proved for whole-second expiries of the years 0000-9999 and key material below 60000 bytes", "known findings: reserved byproduct keys; expiry after year 9999"],
         "assumptions": COMMON_ASSUME + ["expiry at whole seconds, as the statement prescribes (enforced by LayoutMetadata::new since fix 04de89f)"],
     },
     "C17": {
